@@ -92,3 +92,11 @@ CLAIMS["C09"] = (
     "Trusts pebble.ProcessPool.map ordering and deepcopy independence.",
     "DESIGN.md section 4 C09",
 )
+CLAIMS["C15"] = (
+    "guard-dominates-return and exit-shape checks on integrate_to_steady_state, plus error-channel plumbing checks (handler, get_result order, Result.default, exception classes)",
+    "Decides the failure half of the property for all models: (Z1) a course is returned as steady state only under the dominating test norm(change between consecutive iterates) < tolerance, the iterate and time advance every step, and exhausting the step budget ends in Result(NoSteadyState()); "
+    "(Z2) that failure value reaches Simulator._errors, get_result returns the first error before any frame, Result.default substitutes exactly for exception values, and the failure values are exceptions. "
+    "So absence of a steady state can never be presented as a state. That the criterion implies stationarity, and agreement with analytic steady states, are not decided.",
+    "Sibling back ends Diffrax/Assimulo are analysed in the thorough tier and reported as INFO (not installed, unconfirmed).",
+    "DESIGN.md section 4 C15",
+)
